@@ -366,11 +366,29 @@ func (t *Transport) doDial(
 		return nil, err
 	case <-earlyConnChan:
 		// ready to send 0-RTT data
-		return conn.Conn, nil
 	case <-conn.HandshakeComplete():
 		// handshake successfully completed
-		return conn.Conn, nil
 	}
+	// The connection might have been closed in the meantime (or at the same time).
+	// In that case the run loop is about to return: report its error instead of a dead connection.
+	// (conn.Conn is only nil in tests that mock the connection.)
+	if conn.Conn != nil && conn.closeErr.Load() != nil {
+		select {
+		case params := <-recreateChan:
+			return t.doDial(ctx,
+				sendConn,
+				tlsConf,
+				config,
+				params.nextPacketNumber,
+				true,
+				use0RTT,
+				params.nextVersion,
+			)
+		case err := <-errChan:
+			return nil, err
+		}
+	}
+	return conn.Conn, nil
 }
 
 func (t *Transport) init(allowZeroLengthConnIDs bool) error {
